@@ -190,6 +190,87 @@ PROPS["C25"] = {
     "level_note": "Trusted: Verus/Z3; two carrier contracts on arrow RecordBatch; the async unfold loop and Arrow's sort kernels are outside.",
 }
 
+# ------------------------------------------------------------------ C21
+MAG = "physical::morsel_agg"
+_C21_SLOW = ("merge_min", "merge_max", "update_i64_min", "update_i64_max", "update_f64_min", "update_f64_max",
+             "update_scalar_f64_min", "update_scalar_f64_max", "update_scalar_i64_min", "update_scalar_i64_max", "c21_m_finalize_avg")
+
+
+def _c21_harnesses():
+    src = open(os.path.join(os.path.dirname(os.path.dirname(os.path.abspath(__file__))), "kani", "morsel_agg.rs")).read()
+    names = []
+    for m in re.finditer(r"(?m)^(?:\w+!\(|fn )(c21_m_\w+)(?:, (c21_m_\w+))?", src):
+        for g in m.groups():
+            if g and g not in names:
+                names.append(g)
+    out = []
+    for n in names:
+        slow = any(t in n for t in _C21_SLOW) and n != "c21_m_finalize_avg_null_rule"
+        if "_new_" in n:
+            fn, c = "AccumulatorState::new + finalize", "the state of an empty group finalizes to COUNT = 0 / NULL for SUM, AVG, MIN, MAX"
+        elif "update_null" in n:
+            fn, c = "AccumulatorState::update", "update(NULL) leaves the state bit-for-bit unchanged"
+        elif "update_count" in n:
+            fn, c = "AccumulatorState::update_count", "Count: c+1; every other variant unchanged"
+        elif "update_scalar" in n:
+            fn, c = "AccumulatorState::update (ScalarValue slow path)", "one non-NULL row: count+1 / sum+v with the same machine operation / seen=true / min,max updated; variant never changes; agrees with the fast path"
+        elif "update_i64" in n or "update_f64" in n:
+            fn, c = "AccumulatorState::update_i64/update_f64", "one non-NULL row from an arbitrary state: count+1 / sum+v / seen=true / min,max never back to empty and equal min/max(old,v)"
+        elif "merge_mismatch" in n:
+            fn, c = "AccumulatorState::merge", "states of different aggregates: left side unchanged"
+        elif "merge" in n:
+            fn, c = "AccumulatorState::merge", "alpha(a') = alpha(a) (+) alpha(b): counts and sums add, seen = sa || sb, min/max of options (empty is the identity)"
+        else:
+            fn, c = "AccumulatorState::finalize", "Count -> Int64(cnt); Sum/SumInt -> NULL iff !seen; Avg -> NULL iff count==0 else sum/count; Min/Max -> NULL iff empty"
+        out.append(H(MAG, n, fn, c, tier="thorough" if slow else "quick"))
+    return out
+
+
+PROPS["C21"] = {
+    "files": ["kani/morsel_agg.rs"],
+    "level": "proof",
+    "explanation": "Morsel aggregation path (what every Parquet aggregate uses): the private state machine AccumulatorState of src/physical/morsel_agg.rs is put under contract method by method. "
+                   "Each harness starts from an ARBITRARY state of one variant (all scalar domains symbolic), so it is the inductive step over the row sequence and over the merge tree: "
+                   "NULL input changes nothing, a non-NULL row adds exactly itself, merge adds the abstractions (empty = identity, seen flags OR-ed), finalize yields COUNT=cnt and NULL for "
+                   "SUM/AVG/MIN/MAX exactly when no non-NULL input was seen. By induction every batch split and merge order gives the SQL value (pen and paper, two lines).",
+    "kani": _c21_harnesses(),
+    "harness_timeout": {"quick": "6m", "thorough": "20m"},
+    "trusted_base": [
+        "stub: derived ScalarValue::clone replaced by an identical clone on the scalar variants used (Null/Boolean/Int32/Int64/Float64/Date32); any other variant fails the harness",
+        "harness floats are bounded in magnitude (<= 1e300) so that sums stay finite: floating overflow is engine-defined and outside the property",
+        "integer overflow of counters/sums is excluded by assumption (engine-defined, excluded by the property)",
+        "composition over rows / morsels / merge trees is pen and paper (associativity of the abstraction)",
+    ],
+    "not_under_contract": ["the column loops in process_batch / operators that call update_* once per non-NULL row (Arrow buffers)", "hash path (hash_agg.rs), VectorizedGroupTable, aggregate_scalar_simd, dense-key path, spilled path",
+                           "MIN/MAX update and merge steps and the AVG quotient are decided in the thorough tier only (drop glue of ScalarValue makes each cost ~9 min of CBMC)"],
+    "technique": "Kani proof harnesses in place on the private accumulator state machine, one inductive step per (operation, variant) from an arbitrary state",
+    "level_text": "Deductive per step for all scalar values and all states of each variant; the step results compose by induction to every row sequence, batch split and merge order of the morsel path. Other aggregation paths are not under contract (stated).",
+    "level_note": "Trusted: Kani/CBMC; ScalarValue::clone stub; bounded float magnitudes; no-overflow assumptions on counters; the loops that feed the accumulators and every non-morsel path are outside.",
+}
+
+# ------------------------------------------------------------------ C42
+TOP = "execution::topology"
+PROPS["C42"] = {
+    "files": ["kani/topology.rs"],
+    "level": "proof",
+    "explanation": "workers_for is proved for all (usize, usize). parse_cpulist: CBMC cannot afford std's str machinery (measured > 8 min for 3 bytes), so the loop body is verified as a verbatim region "
+                   "with the std str API as a carrier type (assumed contracts: trim, is_empty, split_once('-'), parse::<usize>): for every part and every id in usize it appends exactly the ids the part "
+                   "denotes, ascending, nothing for junk, empty parts or malformed ranges. The final sort_unstable + dedup are std's (assumed: sorted, unique).",
+    "kani": [
+        H(TOP, "c42_workers_for_contract", "workers_for", "1 <= r <= max(max,1); r <= max(work,1); r == work when 1 <= work <= max; all (usize,usize)"),
+        H(TOP, "c42_kx_cpulist_part_denotation", "parse_cpulist (loop body region)", "appended ids == denotation of the part (singleton / inclusive range / nothing), ascending, frame preserved, no panic; all ids in usize",
+          lane="KX", bound="range width <= 4 (the `for c in a..=b` loop)"),
+    ],
+    "trusted_base": [
+        "carrier contracts on std str (R6): trim keeps the parse result, is_empty, split_once('-') splits at the first '-', parse::<usize>() is Ok exactly for decimal usize text",
+        "std sort_unstable + dedup return the sorted set (outside the region)",
+    ],
+    "not_under_contract": ["for part in s.trim().split(',') header", "out.sort_unstable(); out.dedup();", "an enormous range such as 0-18446744073709551615 allocates without bound (outside the property's statement)"],
+    "technique": "Kani contract (all inputs) on workers_for; Kani on the verbatim loop body of parse_cpulist with the std string API as a carrier type",
+    "level_text": "workers_for: deductive for all inputs. parse_cpulist: the part-level logic is proved for all ids with the range loop bounded at width 4 (labelled bounded); string splitting/parsing is assumed from std.",
+    "level_note": "Trusted: Kani/CBMC; carrier contracts for std str methods; std sort/dedup.",
+}
+
 
 def claimed():
     return sorted(PROPS)
